@@ -424,7 +424,9 @@ def lend(src, rng, ctx):
 def field_of(path):
     import re
 
-    return re.sub(r"\[[^\]]*\]", "", path).strip(".")
+    from vmon.snap import mech_field
+
+    return mech_field(path)
 
 
 def snap_differs(a, b):
